@@ -89,4 +89,31 @@ Reads(sh) == CASE sh.prefix = "0x" -> "hex" [] sh.prefix = "0b" -> "bin" [] sh.p
 IntRoundTrip(d, sg) == Reads(Shape(d, sg)) = d
 \* recorded finding: zero in a non-decimal domain prints as a bare 0
 IntShapesOK == \A d \in Domains, sg \in {"neg", "zero", "pos"} : IntRoundTrip(d, sg) \/ (sg = "zero" /\ d # "dec")
+-----------------------------------------------------------------------------
+(* (c) A sequence is rendered by value_seq::show into ONE stream: "[", the  *)
+(* elements separated by ", ", "]".  The stream's formatting flags (base,   *)
+(* showbase) are state that the element renderings share: the hex, oct and  *)
+(* bin domains set them, the decimal domain prints with whatever is set.    *)
+(* MEANING: an element is rendered as it is rendered alone.                 *)
+(* MECHANISM: constant_dom::show per domain with its ios_flag_saver;        *)
+(* NoSaver lists the domains whose show () lacks the saver (self-test).     *)
+
+CONSTANT NoSaver
+Flags0 == [base |-> 10, showbase |-> FALSE]
+\* the text is abstracted to what determines it: the base it is written in and whether it has a prefix
+ShowCst(el, fl) ==
+    CASE el.dom = "dec" -> [txt |-> [v |-> el.v, base |-> fl.base, prefix |-> fl.showbase], fl |-> fl]
+      [] el.dom = "bin" -> [txt |-> [v |-> el.v, base |-> 2, prefix |-> TRUE], fl |-> fl]     \* written digit by digit
+      [] OTHER -> LET b == IF el.dom = "hex" THEN 16 ELSE 8 IN
+                  [txt |-> [v |-> el.v, base |-> b, prefix |-> TRUE],
+                   fl |-> IF el.dom \in NoSaver THEN [base |-> b, showbase |-> TRUE] ELSE fl]
+RECURSIVE ShowSeqFrom(_, _)
+ShowSeqFrom(els, fl) ==
+    IF Len(els) = 0 THEN <<>>
+    ELSE LET r == ShowCst(Head(els), fl) IN <<r.txt>> \o ShowSeqFrom(Tail(els), r.fl)
+ShowAlone(el) == ShowCst(el, Flags0).txt
+SeqEls == {[v |-> v, dom |-> d] : v \in {8, 16}, d \in {"dec", "hex", "oct", "bin"}}
+SeqRenderingCompositional ==
+    \A a, b, c \in SeqEls : ShowSeqFrom(<<a, b, c>>, Flags0) = <<ShowAlone(a), ShowAlone(b), ShowAlone(c)>>
+
 =============================================================================
